@@ -206,7 +206,35 @@ func window(b []byte, at int) string {
 }
 
 // eval runs SetBody(text) on a fresh message and judges the stored body.
+// eval judges SetBody(text) on a new message and then, for one text in three, an edited draft: the same message gets a
+// corrected text of exactly the same length (one letter changed) after its body was read - what the message then
+// stores and returns must be the corrected text.
 func eval(c *ctx, text string) {
+	m := evalOn(c, text, nil)
+	if m == nil || len(text)%3 != 0 {
+		return
+	}
+	for i := len(text) / 2; i < len(text); i++ {
+		if text[i] >= 'a' && text[i] <= 'y' {
+			c.unkeep(m)
+			c.o.Count("drafts_edited_to_a_text_of_the_same_length", 1)
+			evalOn(c, text[:i]+string(text[i]+1)+text[i+1:], m)
+			return
+		}
+	}
+}
+
+func (c *ctx) unkeep(m *fbb.Message) {
+	out := c.kept[:0]
+	for _, k := range c.kept {
+		if k.m != m {
+			out = append(out, k)
+		}
+	}
+	c.kept = out
+}
+
+func evalOn(c *ctx, text string, prior *fbb.Message) (used *fbb.Message) {
 	o := c.o
 	o.Evals++
 	var (
@@ -217,8 +245,11 @@ func eval(c *ctx, text string) {
 		bodyErr error
 	)
 	if vrt.Guard(o, func() {
-		m = &fbb.Message{Header: fbb.Header{}}
-		m.Header.Set("Mid", "C18BODYTEST")
+		m = prior
+		if m == nil {
+			m = &fbb.Message{Header: fbb.Header{}}
+			m.Header.Set("Mid", "C18BODYTEST")
+		}
 		setErr = m.SetBody(text)
 		if setErr == nil {
 			var err error
@@ -228,12 +259,13 @@ func eval(c *ctx, text string) {
 			bodyStr, bodyErr = m.Body()
 		}
 	}) {
-		return
+		return nil
 	}
 	if setErr != nil {
 		c.violate("error", text, "SetBody returned %v for representable text", setErr)
-		return
+		return nil
 	}
+	used = m
 	c.recheckKept()
 	c.keep(m, wire, text)
 	ref, err := msgref.Parse(wire)
@@ -321,6 +353,7 @@ func eval(c *ctx, text string) {
 	h := fnv.New64a()
 	h.Write([]byte(text))
 	o.Sig("%016x", h.Sum64())
+	return used
 }
 
 // charsetNames: what an application may pass to SetBodyWithCharset.
